@@ -30,8 +30,9 @@ def configs(tier, seed):
             G = 64
             if tier == 'thorough' and (n % 8 == 0 or n in C.NW_Q):
                 G = max(64, 1074 - f)
-            out.append(_cfg('contract', s, n, f, r, o, 'pyfloat', G))
-            out.append(_cfg('contract', s, n, f, r, o, 'pyint'))
+            if tier == 'thorough' or (o == 'saturate') == ((n + f) % 2 == 0):      # contracts assume no overflow: alternate the mode in quick
+                out.append(_cfg('contract', s, n, f, r, o, 'pyfloat', G))
+                out.append(_cfg('contract', s, n, f, r, o, 'pyint'))
             if tier == 'thorough' or rng.random() < 0.5:
                 out.append(_cfg('idem', s, n, f, r, o))
             if o == 'saturate' and (tier == 'thorough' or rng.random() < 0.3):
